@@ -116,39 +116,55 @@ def check_format_agreement(chk, ix):
     chk.rule("Q4", WHAT["Q4"])
     rc = ix.cls("behave.formatter.rerun:RerunFormatter")
     rep = rc.lookup("report_scenario_failures")
-    # (1) lines written without '#': exactly "%s\n" % scenario.location inside a loop over failed_scenarios
-    writes = [n for n in ast.walk(rep.node) if isinstance(n, ast.Call) and isinstance(n.func, ast.Attribute) and n.func.attr == "write"]
-    data_writes, other = [], []
-    for w in writes:
-        a = w.args[0] if w.args else None
-        txt = unparse(a) if a is not None else ""
-        lit = ""
-        if isinstance(a, ast.BinOp) and isinstance(a.left, ast.Constant):
-            lit = a.left.value
-        elif isinstance(a, ast.Constant):
-            lit = a.value
-        if isinstance(a, ast.BinOp) and lit == "%s\n" and unparse(a.right).endswith(".location"):
-            data_writes.append(w)
-        elif isinstance(lit, str) and (lit.startswith("#") or lit.strip() == ""):
-            pass
+    # (1)+(2) by evaluation: the file the formatter writes for three collected scenarios, read line by line the way a
+    # features list file is read (comments/blank lines skipped, FileLocationParser on the rest), gives exactly the
+    # scenarios' locations in collection order - whatever helper methods the writer is split into
+    import os as _os
+    flc = ix.cls("behave.model_core:FileLocation")
+    lp = ix.func("behave.runner_util:FeatureListParser.parse")
+    for descriptions in (True, False):
+        written = []
+        st = State()
+        st.frames = []
+        stream = st.alloc(HObj("StreamTok", {}, label="stream"))
+        scen = []
+        for fn, ln, nm in (("features/b.feature", 12, "second #1"), ("features/b.feature", 40, "other"), ("features/a b.feature", 3, "x: y")):
+            loc = st.alloc(HObj(flc, {"filename": fn, "line": ln}, label="location"))
+            scen.append(st.alloc(HObj("ScenarioTok", {"filename": fn, "line": ln, "name": nm, "location": loc}, label="scenario")))
+        stubs = {"StreamTok.write": lambda i_, s_, a, k, n: (written.append(a[1]), [(s_, "val", None)])[1],
+                 "relpath": lambda i_, s_, a, k, n: [(s_, "val", a[0])], "os.path.relpath": lambda i_, s_, a, k, n: [(s_, "val", a[0])],
+                 "os.getcwd": lambda i_, s_, a, k, n: [(s_, "val", "/cwd")]}
+        it = Interp(ix, stubs=stubs, name="RerunFormatter.report_scenario_failures")
+        it.int_sat = 100000
+        it.list_cap = 100
+        me = st.alloc(HObj(rc, {"failed_scenarios": st.alloc(HObj("list", kind="list", items=scen)), "stream": stream, "show_timestamp": False,
+                                "show_failed_scenarios_descriptions": descriptions}, open=True, label="rerun formatter"))
+        outs = it.call_function(st, rep, [], {}, None, self_val=me)
+        chk.absorb(it)
+        chk.instance("Q4")
+        if len(outs) != 1 or outs[0][1] != "val" or not written or not all(isinstance(w, str) for w in written):
+            raise AnalysisError("report_scenario_failures not foldable: %r / %r" % ([(k, v) for _, k, v in outs][:2], written[:3]))
+        text = "".join(written)
+        got = []
+        fold = {"os.path.isabs": _os.path.isabs, "os.path.join": _os.path.join, "os.path.normpath": _os.path.normpath}
+        st2 = {k_: (lambda i_, s_, a, kw, n, _f=f_: [(s_, "val", _f(*a))]) for k_, f_ in fold.items()}
+        st2["glob.has_magic"] = lambda i_, s_, a, kw, n: [(s_, "val", False)]
+        st2["FileLocation"] = lambda i_, s_, a, kw, n: (got.append((a[0], a[1] if len(a) > 1 else kw.get("line"))), [(s_, "val", "LOC")])[1]
+        it2 = Interp(ix, stubs=st2, name="reading the rerun file back")
+        it2.fold_regex = True
+        it2.int_sat = 100000
+        it2.list_cap = 100
+        s0 = State()
+        s0.frames = []
+        o2 = it2.call_function(s0, lp, [text], {}, None)
+        if len(o2) != 1 or o2[0][1] != "val":
+            raise AnalysisError("FeatureListParser.parse not foldable on the rerun text: %r" % ([(k, v) for _, k, v in o2][:2],))
+        want = [("features/b.feature", 12), ("features/b.feature", 40), ("features/a b.feature", 3)]
+        if got == want:
+            chk.ok("Q4", {"descriptions": descriptions, "rerun file": text, "read back": [list(g) for g in got]}, nontrivial_key=("roundtrip", descriptions))
         else:
-            other.append(txt)
-    chk.instance("Q4")
-    if len(data_writes) == 1 and not other:
-        chk.ok("Q4", {"data_line": "'%s\\n' % scenario.location", "other_lines": "start with '#' or are blank"}, nontrivial_key="writer")
-    else:
-        _fail(chk, "Q4", rep, "writer lines data=%d other=%s" % (len(data_writes), other),
-              "rerun file lines are not limited to '<location>' data lines and '#'/blank lines: %s" % other)
-    # (2) the data write sits in a loop over self.failed_scenarios
-    chk.instance("Q4")
-    ok = False
-    for n in ast.walk(rep.node):
-        if isinstance(n, ast.For) and unparse(n.iter) == "self.failed_scenarios" and data_writes and data_writes[0] in list(ast.walk(n)):
-            ok = True
-    if ok:
-        chk.ok("Q4", {"loop": "for scenario in self.failed_scenarios"}, nontrivial_key="loop")
-    else:
-        _fail(chk, "Q4", rep, "data lines not per failed scenario", "location lines are not written once per collected scenario in list order")
+            _fail(chk, "Q4", rep, "descriptions=%s: read back %r" % (descriptions, got),
+                  "the rerun file written for the scenarios %r is %r; read back as a features list it gives %r" % (want, text, got))
     # (3) str(FileLocation) = "%s:%d"
     fl = ix.cls("behave.model_core:FileLocation")
     sf = fl.methods.get("__str__")
